@@ -90,7 +90,11 @@ fn extend(s: &G) -> Vec<G> {
     un(&|s| format!("fn({s})"), 0);
     un(&|s| format!("fn() -> {s}"), 0);
     un(&|s| format!("Option<fn({s}) -> ()>"), 0);
+    // a qualified self without a trait (`<X>::Assoc`) is a qualified self all the same
+    out.push(G { text: format!("<{}>::Assoc", s.text), bi: 0, decl: s.decl });
+    out.push(G { text: format!("Vec<<{}>::Assoc>", s.text), bi: 0, decl: s.decl });
     for o in others() {
+        out.push(G { text: format!("<{}>::Assoc<{}>", s.text, o.text), bi: o.bi, decl: s.decl | o.decl });
         let both = |f: &dyn Fn(&str, &str) -> String, out: &mut Vec<G>| out.push(G { text: f(&s.text, &o.text), bi: s.bi | o.bi, decl: s.decl | o.decl });
         both(&|s, o| format!("Map<{s}, {o}>"), &mut out);
         both(&|s, o| format!("Map<{o}, {s}>"), &mut out);
